@@ -194,6 +194,8 @@ class World:
         elif shape == "split":                          # several outputs summing to the bound
             a = value // 3
             cb_outs = [(a, miner), (value - a, KEYS[(op.get("miner", 0) + 1) % len(KEYS)].pub)]
+        elif shape == "times3":                         # three outputs EACH of the full amount
+            cb_outs = [(value, KEYS[(op.get("miner", 0) + j) % len(KEYS)].pub) for j in range(3)]
         elif shape == "none":
             cb_outs = []
         elif shape == "less":
